@@ -24,4 +24,27 @@ WSub(bal, a) ==
 
 (* dust a debit of amount a from balance bal may create: what the snap forgives *)
 WDust(bal, a) == IF WSub(bal, a).ok /\ WSub(bal, a).bal = Zero /\ QLt(bal, a) THEN QSub(a, bal) ELSE Zero
+
+(***************************************************************************)
+(* Broker.swap_by_from / swap_by_to (demeter/broker/broker.py): a swap     *)
+(* inside the wallet at the prices handed in, fee charged on the "from"    *)
+(* side.  The debit goes through Asset.sub (dust snap, overdraft raises    *)
+(* BEFORE the credit, so a rejected swap leaves the wallet), the credit    *)
+(* through Asset.add.  fee must lie in [0, 1).                              *)
+(*   by_from: to = a * px[f] * (1 - fee) / px[t],        reported fee = a * fee        (in f) *)
+(*   by_to  : from = a * px[t] / (1 - fee) / px[f],      reported fee = from * fee     (in f) *)
+(* result: [ok, w, from, to, fee]                                           *)
+(***************************************************************************)
+FeeOk(fee) == QLe(Zero, fee) /\ QLt(fee, One)
+BSwapMove(w, f, t, fromAmt, toAmt, fee) ==
+  LET r == WSub(w[f], fromAmt) IN
+  IF ~r.ok THEN [ok |-> FALSE, w |-> w, from |-> fromAmt, to |-> toAmt, fee |-> QMul(fromAmt, fee)]
+  ELSE LET w1 == [w EXCEPT ![f] = r.bal] IN
+       [ok |-> TRUE, w |-> [w1 EXCEPT ![t] = WAdd(w1[t], toAmt)], from |-> fromAmt, to |-> toAmt, fee |-> QMul(fromAmt, fee)]
+BSwapFrom(w, f, t, a, px, fee) ==
+  IF ~FeeOk(fee) THEN [ok |-> FALSE, w |-> w, from |-> a, to |-> Zero, fee |-> Zero]
+  ELSE BSwapMove(w, f, t, a, QDiv(QMul(QMul(a, px[f]), QSub(One, fee)), px[t]), fee)
+BSwapTo(w, f, t, a, px, fee) ==
+  IF ~FeeOk(fee) THEN [ok |-> FALSE, w |-> w, from |-> Zero, to |-> a, fee |-> Zero]
+  ELSE BSwapMove(w, f, t, QDiv(QDiv(QMul(a, px[t]), QSub(One, fee)), px[f]), a, fee)
 =============================================================================
